@@ -969,6 +969,7 @@ def _poll_loop(h):
         return NR.airtouch_poll_loop(h, GEN)
     g = 4
     E = Env(h, g, "CONNECTED")
+    E.sock.send_may_fail = True   # send by its contract: accepted, or refused with NotOpenError / QueueOverflowError
     T = h.get(GEN[g]["api"] + ":_GROUP_STATUS_TIMEOUT")
     h.oblige("group-status timeout is 300 s", T == 300.0)
     ev = h.attr(E.at, "_group_status_received_event")
@@ -1041,8 +1042,14 @@ def _register(g):
     oset(n + ".init-machine-lemma", ["C09"], [_fn(g, "_message_received"), _fn(g, "_connection_changed")], kind="lemma",
          assumptions=["lemma over the transition table of the _message_received / _connection_changed contracts (finite, enumerated completely)"])(
              lambda h: _init_machine_lemma(h, g))
-    oset(n + "._message_received", ["C09", "C10", "C14", "C02", "C08", "C15"], [_fn(g, "_message_received")])(lambda h: _message_received(h, g))
-    oset(n + "._connection_changed", ["C14", "C09", "C02", "C19"], [_fn(g, "_connection_changed")])(lambda h: _connection_changed(h, g))
+    oset(n + "._message_received", ["C09", "C10", "C14", "C02", "C08", "C15"], [_fn(g, "_message_received")],
+         assumptions=["socket.send accepts the request it is given here; by its own contract it may instead refuse with NotOpenError / QueueOverflowError "
+                      "(closed meanwhile, ten unexpired messages held): the exception then leaves the handler and is swallowed and logged by the "
+                      "socket's notification - the periodic tasks, which would die of it, are proved against the full contract"])(lambda h: _message_received(h, g))
+    oset(n + "._connection_changed", ["C14", "C09", "C02", "C19"], [_fn(g, "_connection_changed")],
+         assumptions=["socket.send accepts the request it is given here; by its own contract it may instead refuse with NotOpenError / QueueOverflowError "
+                      "(closed meanwhile, ten unexpired messages held): the exception then leaves the handler and is swallowed and logged by the "
+                      "socket's notification - the periodic tasks, which would die of it, are proved against the full contract"])(lambda h: _connection_changed(h, g))
     oset(n + "._message_received.shutdown-meanwhile", ["C15", "C09"], [_fn(g, "_message_received")],
          assumptions=["shutdown() sets the state CLOSED and clears the initialised flag before it first suspends (proved: <gen>.airtouch.shutdown)"])(
         lambda h: _shutdown_meanwhile(h, g))
